@@ -314,7 +314,7 @@ func compareHeaders(c mcase, lines []hdr, got map[string][]string, exact bool) [
 	var foreign, show []string
 	for n := range obs {
 		_, wanted := want[n]
-		if wanted || framing[n] || deliverersOwn[n] || (c.Frame == frameTrailer && n == trailerField) {
+		if wanted || framing[n] || deliverersOwn[n] || signHeaderOf(c.Route, n) || (c.Frame == frameTrailer && n == trailerField) {
 			continue
 		}
 		if sec, ok := secrets[n]; ok && anyLeak(obs[n], sec) {
